@@ -30,7 +30,7 @@ fn main() {
         let mut graphs: Vec<Vec<u32>> = vec![vec![]];
         for i in 0..n { let mut next = vec![]; for g in &graphs { for mask in 0..(1u32 << i) { let mut h = g.clone(); h.push(mask); next.push(h); } } graphs = next; }
         for g in &graphs {
-            for variant in ["plain", "repeated-dependency-entry", "missing-dependency"] {
+            for variant in ["plain", "repeated-dependency-entry", "missing-dependency", "every-item-delivered-twice"] {
                 // dependency lists
                 let deps: Vec<Vec<Hash>> = (0..n).map(|i| {
                     let mut d: Vec<Hash> = (0..i).filter(|j| g[i] >> j & 1 == 1).map(|j| ids[j]).collect();
@@ -46,7 +46,8 @@ fn main() {
                         let store = SqliteStore::temporary().await;
                         let orderer = CausalOrderer::new(store.clone());
                         let mut out = vec![];
-                        for i in &p {
+                        let delivery: Vec<usize> = if variant == "every-item-delivered-twice" { p.iter().flat_map(|i| [*i, *i]).collect() } else { p.clone() };
+                        for i in &delivery {
                             let permit = store.begin().await.unwrap();
                             orderer.process(ids[*i], &deps[*i]).await.unwrap();
                             store.commit(permit).await.unwrap();
@@ -71,7 +72,9 @@ fn main() {
                     let mut class = None;
                     // safety
                     for (pos, i) in rel_idx.iter().enumerate() {
-                        if rel_idx[..pos].contains(i) { class = Some("item-released-twice"); }
+                        // an item that is delivered again after it was released is queued again (documented behaviour of the
+                        // store's mark_ready: "not swallow items when they got re-processed"); without re-delivery never twice
+                        if rel_idx[..pos].contains(i) && variant != "every-item-delivered-twice" { class = Some("item-released-twice"); }
                         for d in &deps[*i] { let j = ids.iter().position(|x| x == d).unwrap(); if !rel_idx[..pos].contains(&j) { class = Some("item-released-before-its-dependency"); } }
                     }
                     if class.is_none() {
@@ -84,6 +87,6 @@ fn main() {
     }
     println!("{}", json!({"summary": true, "function": "p2panda-store/src/orderer/sqlite.rs OrdererStore@SqliteStore (ready / mark_pending / get_next_pending / remove_pending / mark_ready / take_next_ready)",
         "evaluations": n_eval, "distinct_nontrivial": nontrivial, "exhaustive": true,
-        "rule": "all DAGs on <= N items x {plain, one repeated dependency entry, one never-delivered dependency} x all delivery orders through the real CausalOrderer on SqliteStore::temporary(); non-trivial = at least one dependency edge",
+        "rule": "all DAGs on <= N items x {plain, one repeated dependency entry, one never-delivered dependency, every item delivered twice in a row} x all delivery orders through the real CausalOrderer on SqliteStore::temporary(); non-trivial = at least one dependency edge",
         "bound": format!("N = {max_n} items"), "violating_classes": reported}));
 }
